@@ -881,10 +881,11 @@ func (l *c07Live) drive(stream []byte, lock []c07Frame) {
 // cleanup releases whatever an aborted execution left open in this process.
 func (l *c07Live) cleanup() {
 	if l.sv != nil {
-		for _, f := range l.sv.openFiles {
+		// (no assumption about the key type of the handle table: a refactoring of it must not stop the harness from compiling)
+		for k, f := range l.sv.openFiles {
 			f.Close()
+			delete(l.sv.openFiles, k)
 		}
-		l.sv.openFiles = map[string]file{}
 	}
 }
 
